@@ -6,7 +6,7 @@ from __future__ import annotations
 
 import z3
 
-from .core import C, Unsupported
+from .core import C, Unsupported, UnsupportedAttribute
 
 # ------------------------------------------------------------------------------------------------------------
 # sorts of the semantic model (DESIGN.md 3.1)
@@ -65,6 +65,9 @@ class Sym:
         return f"<{type(self).__name__}>"
 
     __str__ = __repr__
+
+    def __getattr__(self, name):
+        raise UnsupportedAttribute(f"attribute '{name}' of {type(self).__name__} is not modelled")
 
 
 class SBool(Sym):
@@ -1010,11 +1013,20 @@ class SSeq(Sym):
         return it
 
     def _vc_enumerate(self):
-        return SIter(I, lambda i: z3.And(i >= 0, i < self.n), lambda i: (SInt(i), self.at(i)), count=self.n)
+        it = SIter(I, lambda i: z3.And(i >= 0, i < self.n), lambda i: (SInt(i), self.at(i)), count=self.n)
+        it._indexed = (self.n, self.kind)
+        return it
 
     def _vc_isinstance(self, cls):
         classes = cls if isinstance(cls, tuple) else (cls,)
         return any(issubclass(self.kind, c) for c in classes if isinstance(c, type))
+
+    def _vc_contains(self, x):
+        i = bv("i!sc", I)
+        e = self.at(i)
+        if not isinstance(e, (SBool, SInt, STerm)):
+            raise Unsupported("membership test in a sequence of non-scalar proxies")
+        return SBool(z3.Exists([i], z3.And(i >= 0, i < self.n, e.t == term(x))))
 
     def __iter__(self):
         raise Unsupported("native iteration over a symbolic sequence")
@@ -1024,6 +1036,25 @@ def vc_enumerate(it, start=0):
     if hasattr(it, "_vc_enumerate") and start == 0:
         return it._vc_enumerate()
     return enumerate(it, start)
+
+
+def vc_range(*a):
+    if not any(isinstance(x, Sym) for x in a):
+        return range(*a)
+    if len(a) != 1:
+        raise Unsupported("range(start, stop[, step]) with symbolic bounds")
+    n = ti(a[0])
+    m = C.fresh("range_len", I)
+    C.assume(m == z3.If(n > 0, n, 0))
+    return SSeq(m, lambda i: SInt(i), tuple, "range")
+
+
+def vc_type(o):
+    if hasattr(o, "_vc_type"):
+        return o._vc_type()
+    if isinstance(o, Sym):
+        raise Unsupported(f"type() of {type(o).__name__}")
+    return type(o)
 
 
 def vc_tuple(it=()):
